@@ -1009,7 +1009,11 @@ class MultiStream(Stream):
     
     def reduce_phases(self):
         """Remove empty phases."""
-        self.phase = self.phase
+        phases = [phase for phase, data in self._imol if data.any()]
+        if len(phases) > 1:
+            self.phases = phases # Every phase present keeps its own material ('l' and 'L' are not merged)
+        else:
+            self.phase = self.phase
     
     @property
     def phase(self) -> str:
